@@ -118,6 +118,7 @@ inline Cuts schedule(uint64_t seed, size_t n, size_t r, size_t twoSplitMax, size
     static const size_t maxes[] = {1, 2, 3, 5, 8, 16, 64, 512, 4096};
     size_t mx = maxes[g.range(0, 8)];
     if (g.chance(0.2)) mx = n; // few, large segments
+    if (n > 4000 && mx < n / 48) mx = n / 48; // incremental parsers rescan: keep huge inputs affordable
     size_t pos = 0;
     for (;;) {
         pos += g.range(1, mx);
